@@ -39,7 +39,7 @@ CHECKS["C12"] = dict(
         dict(test="TestC12RoundTrip", quick=250, thorough=12500, per_shard=16),
         dict(test="TestC12Hostile", quick=150, thorough=7500, per_shard=10),
     ],
-    floors=dict(any={"TestC12Hostile.accepted": 100, "TestC12Hostile.rejected": 1000, "TestC12RoundTrip.ctor.NewRequest": 100}),
+    floors=dict(any={"TestC12Hostile.accepted": 100, "TestC12Hostile.rejected": 1000, "TestC12RoundTrip.ctor.NewRequest": 100, "TestC12RoundTrip.failed_writes_before_encode": 300}),
     assumptions=["the independent encoder (internal/cborx, 150 lines) implements DAG-CBOR canonical form correctly"],
 
 )
@@ -105,7 +105,7 @@ CHECKS["C02"] = dict(
         dict(test="TestC02Chan", quick=48, thorough=2400, per_shard=6),
         dict(test="TestC02Mgr", quick=48, thorough=2400, per_shard=6),
     ],
-    floors=dict(any={"TestC02Chan.stimuli": 1000, "TestC02Mgr.stimuli": 1500}),
+    floors=dict(any={"TestC02Chan.stimuli": 1000, "TestC02Mgr.stimuli": 1500, "TestC02Mgr.sparse_restart_delivered": 60, "TestC02Mgr.stopped_at_terminal_announcement": 8}),
     assumptions=["pause/resume/close calls reaching the transport double for a terminated channel are not counted (the property speaks of channel fields, events and restart traffic)"],
 )
 
@@ -118,9 +118,10 @@ CHECKS["C14"] = dict(
           "intervals; attempts without data progress <= max; <= 1 close; accept/complete deadline closes exactly then unless cancelled; any other close needs an exhausted "
           "budget; persistent failure ends in a close; silence, no subscription and 'forgotten' after a cleanup/terminal snapshot or verdict; exactly one extra attempt "
           "for restarts requested during an attempt; disabled => no calls at all. distinct = observed (failure pattern, closes, attempts, ended, deadline kind) facts."),
-    parts=[dict(test="TestC14Monitor", quick=600, thorough=50000, per_shard=60)],
+    parts=[dict(test="TestC14Monitor", quick=600, thorough=50000, per_shard=60),
+        dict(test="TestC14Mgr", quick=64, thorough=3200, per_shard=8)],
     floors=dict(any={"TestC14Monitor.queued_cases": 50, "TestC14Monitor.budget_closes": 50, "TestC14Monitor.deadline_cases.accept-timeout": 50,
-                     "TestC14Monitor.deadline_cases.complete-timeout": 10, "TestC14Monitor.disabled_cases": 20, "TestC14Monitor.stopped_channels": 200}),
+                     "TestC14Monitor.deadline_cases.complete-timeout": 10, "TestC14Monitor.disabled_cases": 20, "TestC14Monitor.stopped_channels": 200, "TestC14Mgr.mgr_persistent_failures": 20, "TestC14Mgr.mgr_recovered": 20}),
     assumptions=["virtual time (testing/synctest): timer expirations are exact; the monitor API double is the only observation point"],
 )
 
@@ -137,7 +138,7 @@ CHECKS["C15"] = dict(
         dict(test="TestC15Send", quick=320, thorough=30000, per_shard=32),
         dict(test="TestC15Inbound", quick=96, thorough=6000, per_shard=10),
     ],
-    floors=dict(any={"TestC15Send.successful_sends": 100, "TestC15Send.exhausted_sends": 40, "TestC15Send.cancelled_sends": 20, "TestC15Send.write_failures": 20,
+    floors=dict(any={"TestC15Send.successful_sends": 100, "TestC15Send.exhausted_sends": 40, "TestC15Send.cancelled_sends": 20, "TestC15Send.write_failures": 20, "TestC15Send.short_open_timeout_cases": 20,
                      "TestC15Inbound.malformed_streams": 30, "TestC15Inbound.inbound_messages": 120}),
     assumptions=["libp2p mocknet streams stand in for real transports; timing is virtual"],
 )
@@ -159,7 +160,7 @@ CHECKS["C18"] = dict(
         dict(test="TestC18LifetimesVirtual", quick=32, thorough=2400, per_shard=8),
         dict(test="TestC18Duplicate", quick=96, thorough=6000, per_shard=24),
     ],
-    floors=dict(any={"TestC18Concurrent.opens": 3000, "TestC18Lifetimes.lifetimes": 30, "TestC18LifetimesVirtual.virtual_lifetimes": 60, "TestC18Duplicate.duplicates": 60, "TestC18Duplicate.concurrent_duplicates": 10}),
+    floors=dict(any={"TestC18Concurrent.opens": 3000, "TestC18Lifetimes.lifetimes": 30, "TestC18LifetimesVirtual.virtual_lifetimes": 60, "TestC18Duplicate.duplicates": 60, "TestC18Duplicate.concurrent_duplicates": 10, "TestC18Duplicate.followup_after_duplicate": 10}),
     assumptions=["the wall clock does not go backwards between manager lifetimes (premise stated in the property)",
                  "issuing a transfer id costs at least 1 microsecond of wall clock (virtual-clock variant: that much clock passes between lifetimes)"],
 )
@@ -210,9 +211,10 @@ CHECKS["C16"] = dict(
           "cleanup followed by late callbacks. The harness owns the map request id -> channel; after every callback the new handler calls must be exactly the expected "
           "(operation, channel) multiset (nothing for unknown/foreign/cleaned-up), control calls must name the channel's current request, hook snapshot shows no route or "
           "tracking after cleanup, persistence options exist exactly for live channels with a store. distinct = per-channel (requester, #requests, cleaned, store) shape."),
-    parts=[dict(test="TestC16Route", quick=200, thorough=12000, per_shard=25)],
+    parts=[dict(test="TestC16Route", quick=200, thorough=12000, per_shard=25),
+        dict(test="TestC16StaleOpen", quick=48, thorough=2400, per_shard=12)],
     floors=dict(any={"TestC16Route.callbacks": 4000, "TestC16Route.cleanups": 60, "TestC16Route.restarts": 200, "TestC16Route.role_confused": 150,
-                     "TestC16Route.offwire_blocks": 80, "TestC16Route.refused_opens": 20, "TestC16Route.foreign_requests": 150, "TestC16Route.completions": 100}),
+                     "TestC16Route.offwire_blocks": 80, "TestC16Route.refused_opens": 20, "TestC16Route.foreign_requests": 150, "TestC16Route.completions": 100, "TestC16StaleOpen.abandoned_opens": 20, "TestC16StaleOpen.controls_after_abandoned_open": 100}),
     assumptions=["the graphsync double runs the outgoing-request hook before Request returns, as go-graphsync v0.18 does"],
 )
 
@@ -297,7 +299,7 @@ CHECKS["C17"] = dict(
           "defining effect (else it was an ignored event); byte totals move only on progress events; a per-transfer subscriber gets exactly its channel's events in the same order "
           "and is released at termination (hook); a subscriber is never called again once its unsubscribe returned and the queue drained. distinct = statuses reached x sizes."),
     parts=[dict(test="TestC17Subs", quick=160, thorough=9000, per_shard=10)],
-    floors=dict(any={"TestC17Subs.events_checked": 8000, "TestC17Subs.per_transfer_checked": 80, "TestC17Subs.unsubscribed_checked": 100, "TestC17Subs.late_subscribers": 100, "TestC17Subs.opened_during_terminal_delivery": 15}),
+    floors=dict(any={"TestC17Subs.events_checked": 8000, "TestC17Subs.per_transfer_checked": 80, "TestC17Subs.unsubscribed_checked": 100, "TestC17Subs.late_subscribers": 100, "TestC17Subs.opened_during_terminal_delivery": 15, "TestC17Subs.inbound_channel_reusing_our_transfer_id": 20}),
     assumptions=["one applied event = one datastore write unless the record is byte-identical (collapsed on both sides); the harness advances the virtual clock between stimuli"],
 )
 
@@ -318,7 +320,7 @@ CHECKS["C19"] = dict(
         dict(test="TestC13Migrate", quick=24, thorough=480, per_shard=6),
         dict(test="TestC17Subs", quick=24, thorough=480, per_shard=6),
     ],
-    floors=dict(any={"TestC19Logs.states_probed": 5000, "TestC19Logs.failed_sends": 300, "TestC19Logs.validation_results": 200, "TestC19Concurrent.operations": 800}),
+    floors=dict(any={"TestC19Logs.states_probed": 5000, "TestC19Logs.failed_sends": 300, "TestC19Logs.validation_results": 200, "TestC19Logs.logs_after_own_side_finished": 60, "TestC19Concurrent.operations": 800}),
     assumptions=["for results carried by UpdateValidationStatus only 'sent => recorded exactly once' is asserted"],
 )
 
@@ -334,7 +336,7 @@ CHECKS["C01"] = dict(
           "distinct = (direction, scenario, store config, final statuses, cuts, size class)."),
     parts=[dict(test="TestC01E2E", quick=60, thorough=3000, per_shard=4, watchdog=180)],
     floors=dict(any={"TestC01E2E.initiator_completed": 36, "TestC01E2E.limit_raises": 5, "TestC01E2E.finalization_rounds": 5, "TestC01E2E.completed_through_restart": 2,
-                     "TestC01E2E.blocks": 300}),
+                     "TestC01E2E.blocks": 300, "TestC01E2E.restarts_before_first_block": 4}),
     assumptions=["libp2p mocknet and in-memory blockstores stand in for real networks/disks; graphsync is the only transport"],
 )
 
